@@ -392,6 +392,10 @@ def run(rep: Report, repo: Repo, tier: str) -> None:
               "the cminx console script is not bound to cminx:main")
     rep.floor("C19-R5", 3, "package config facts")
 
+    # ---- R7: a failure inside CMinx reaches the exit status of whatever executable CMake runs
+    with rep.isolated():
+        rule_exit_status(rep, repo, "C19-R7")
+
 
 def _result_checked(fn: Block, var: str, ep: Command) -> bool:
     """if(NOT ${var} EQUAL 0) / if(${var}) ... message(FATAL_ERROR ...) after the execute_process."""
@@ -407,3 +411,40 @@ def _result_checked(fn: Block, var: str, ep: Command) -> bool:
                     if c.name == "message" and c.args and c.args[0].text == "FATAL_ERROR":
                         return True
     return False
+
+
+def rule_exit_status(rep: Report, repo: Repo, rule: str) -> None:
+    import ast
+    from ..model import call_name, calls_in, norm, walk_no_nested
+    rep.rule(rule, "main() reports failures through exceptions or exit(); if it returns a status instead, every entry point "
+                   "(console script, src/main.py launcher) passes that value to sys.exit")
+    mfn = repo.func("cminx", "main")
+    returns_status = [n for n in walk_no_nested(mfn) if isinstance(n, ast.Return) and n.value is not None
+                      and not (isinstance(n.value, ast.Constant) and n.value.value is None)]
+    launcher = repo.module("main").tree
+    n = 0
+    for node in ast.walk(launcher):
+        if isinstance(node, ast.Expr) and isinstance(node.value, ast.Call) and call_name(node.value).split(".")[-1] == "main":
+            n += 1
+            rep.check(not returns_status, rule, "src/main.py", norm(node)[:60],
+                      "main() returns an exit status, but the launcher that is frozen into the cminx executable calls it as a plain "
+                      "statement and drops the value: the executable exits 0 on failure and COMMAND_ERROR_IS_FATAL never triggers",
+                      witness="cminx_gen_rst() on a file with an unterminated quoted argument")
+        if isinstance(node, ast.Call) and call_name(node) in ("sys.exit", "exit", "SystemExit") and node.args \
+                and isinstance(node.args[0], ast.Call) and call_name(node.args[0]).split(".")[-1] == "main":
+            n += 1
+            rep.ok(rule, "src/main.py", norm(node)[:60])
+    # handlers in main() that swallow a pipeline error without a non-zero exit
+    for node in walk_no_nested(mfn):
+        if isinstance(node, ast.Try):
+            for h in node.handlers:
+                reraises = any(isinstance(x, ast.Raise) for x in ast.walk(h))
+                exits = any(isinstance(x, ast.Call) and call_name(x) in ("exit", "sys.exit") for x in ast.walk(h))
+                sets_status = bool(returns_status)
+                rep.check(reraises or exits or not any(call_name(c).endswith("document") for st_ in node.body for c in calls_in(st_)) or
+                          (sets_status and n and not any(isinstance(x, ast.Expr) and isinstance(x.value, ast.Call)
+                                                         and call_name(x.value).split(".")[-1] == "main" for x in ast.walk(launcher))),
+                          rule, "cminx:main", f"except {norm(h.type) if h.type is not None else ''}",
+                          "main() catches a failure of document() without re-raising or exiting non-zero",
+                          witness="cminx on a malformed file: exit status 0")
+    rep.floor(rule, 1, "entry points")
